@@ -1,0 +1,172 @@
+//go:build verif
+
+package main
+
+import (
+	"bufio"
+	"fmt"
+	"os"
+	"runtime/debug"
+	"strings"
+	"testing"
+	"time"
+	"ti/base"
+	"ti/builtin"
+	"ti/cmd"
+	"ti/context"
+	"ti/eval"
+)
+
+// verifRunRounds mirrors the goroutine body of main() using the real helpers.
+// In a test binary os.Exit(0) is a recoverable panic (-test.paniconexit0).
+func verifRunRounds(file string, args []string) (panicked any) {
+	os.Args = append([]string{"ti", file}, args...)
+	defer func() {
+		if r := recover(); r != nil {
+			if s, ok := r.(string); ok && strings.Contains(s, "unexpected call to os.Exit(0)") {
+				return
+			}
+			panicked = fmt.Sprintf("%v\n%s", r, debug.Stack())
+		}
+	}()
+	flags := cmd.BuildFlags()
+	if flags.IsHelp || flags.IsVersion || flags.IsAllType {
+		return nil
+	}
+	for _, round := range context.GetRounds() {
+		fp, _ := os.Open(file)
+		br := bufio.NewReader(fp)
+		p := getParser(br, file)
+		cmd.ApplyParserFlags(&p)
+		cleanSimpleIdentifires()
+		preload(round, flags)
+		evaluationLoop(p, flags, round, false)
+		fp.Close()
+	}
+	return nil
+}
+
+func verifReset() error {
+	base.VerifReset()
+	eval.VerifReset()
+	return builtin.VerifReload()
+}
+
+// TestVerifServer answers one request per stdin line:
+//
+//	RUN  \t dir \t file \t args...   -> analysis output
+//	SNAP \t dir \t file \t args...   -> analysis output + diff of the pre-existing table entries
+//
+// Response: "#BEGIN <nout> <npanic> <nsnap>\n" + out + panic + snap + "#END\n".
+func TestVerifServer(t *testing.T) {
+	if os.Getenv("TI_VERIF_SERVER") == "" {
+		t.Skip()
+	}
+	sc := bufio.NewScanner(os.Stdin)
+	sc.Buffer(make([]byte, 1<<20), 1<<20)
+	realOut := os.Stdout
+	w := bufio.NewWriter(realOut)
+	for sc.Scan() {
+		parts := strings.Split(sc.Text(), "\t")
+		if len(parts) < 3 {
+			fmt.Fprintln(w, "#ERR bad request")
+			w.Flush()
+			continue
+		}
+		kind := parts[0]
+		if err := os.Chdir(parts[1]); err != nil {
+			fmt.Fprintln(w, "#ERR chdir", err)
+			w.Flush()
+			continue
+		}
+		parts = parts[2:]
+		if err := verifReset(); err != nil {
+			fmt.Fprintln(w, "#ERR reload", err)
+			w.Flush()
+			continue
+		}
+		var before map[string]string
+		if kind == "SNAP" {
+			before = base.VerifDumpTable()
+		}
+		tmp, err := os.CreateTemp("", "vout")
+		if err != nil {
+			fmt.Fprintln(w, "#ERR tmp", err)
+			w.Flush()
+			continue
+		}
+		os.Stdout = tmp
+		p := verifRunRounds(parts[0], parts[1:])
+		os.Stdout = realOut
+		data, _ := os.ReadFile(tmp.Name())
+		tmp.Close()
+		os.Remove(tmp.Name())
+		ps := ""
+		if p != nil {
+			ps = p.(string)
+		}
+		var snap strings.Builder
+		if kind == "SNAP" {
+			after := base.VerifDumpTable()
+			for _, k := range base.VerifSortedKeys(before) {
+				a, ok := after[k]
+				if !ok {
+					fmt.Fprintf(&snap, "REMOVED\t%s\t%s\n", k, before[k])
+				} else if a != before[k] {
+					fmt.Fprintf(&snap, "CHANGED\t%s\t%s\t%s\n", k, before[k], a)
+				}
+			}
+		}
+		fmt.Fprintf(w, "#BEGIN %d %d %d\n%s%s%s#END\n", len(data), len(ps), snap.Len(), data, ps, snap.String())
+		w.Flush()
+	}
+}
+
+// FuzzVerifAnalyze is the coverage-guided stage of C01/C02: reset, analyse,
+// fail on a panic or on exceeding an in-process watchdog.
+func FuzzVerifAnalyze(f *testing.F) {
+	f.Add([]byte("x = 1\ndbtp x\n"), uint8(0))
+	f.Add([]byte("class A\n  def m(a)\n    a + 1\n  end\nend\nA.new.m(1)\n"), uint8(1))
+	dir := f.TempDir()
+	if cfg := os.Getenv("TI_VERIF_CONFIG_DIR"); cfg != "" {
+		os.Symlink(cfg, dir+"/.ti-config")
+	}
+	os.Chdir(dir)
+	realOut := os.Stdout
+	devnull, _ := os.OpenFile(os.DevNull, os.O_WRONLY, 0)
+	f.Fuzz(func(t *testing.T, src []byte, mode uint8) {
+		if len(src) > 600 {
+			return
+		}
+		file := dir + "/t.rb"
+		os.WriteFile(file, src, 0o644)
+		if err := verifReset(); err != nil {
+			t.Skip()
+		}
+		var args []string
+		switch mode % 5 {
+		case 1:
+			args = []string{"-i"}
+		case 2:
+			args = []string{"--suggest", fmt.Sprintf("--row=%d", int(mode/5)%8)}
+		case 3:
+			args = []string{"--hover", fmt.Sprintf("--row=%d", int(mode/5)%8)}
+		case 4:
+			args = []string{"--define", fmt.Sprintf("--row=%d", int(mode/5)%8)}
+		}
+		os.Stdout = devnull
+		done := make(chan any, 1)
+		go func() { done <- verifRunRounds(file, args) }()
+		var p any
+		select {
+		case p = <-done:
+		case <-time.After(3 * time.Second):
+			os.Stdout = realOut
+			panic("verif: hang")
+		}
+		os.Stdout = realOut
+		if p != nil {
+			t.Fatalf("panic: %v", p)
+		}
+	})
+}
